@@ -204,6 +204,12 @@ def attrStep (o : Opts) (isComponent : Bool) (a : Node) (acc : AttrAcc) (st : St
           | none =>
             let (h, st) := st.fresh "_transformOn"
             (h, { st with transformOnHelper := some h })
+        -- attributes written before `on` are flushed first (source order)
+        let acc :=
+          if !acc.props.isEmpty then
+            { acc with mergeArgs := acc.mergeArgs ++ [nObject (if o.mergeProps then dedupeProps acc.props else acc.props)],
+                       props := [] }
+          else acc
         ({ acc with mergeArgs := acc.mergeArgs ++ [nCall helper [nArg attrValue]] }, st)
       else
         ({ acc with props := acc.props ++ [nKV (nStr attrName) attrValue] }, st)
